@@ -47,7 +47,7 @@ type mProg struct {
 	Conc       int
 }
 
-var mShPool = []string{"pwd", "echo $EV", "echo const", "echo {{.V}}", "echo $PWD-$EV", `eval "echo \$E""V"`}
+var mShPool = []string{"pwd", "echo $EV", "echo const", "echo {{.V}}", "echo $PWD-$EV", `read n < {{.ROOT_DIR}}/varname.txt; eval "echo \$$n"`}
 
 func genM(ch *vs.Choices, tier string) *mProg {
 	p := &mProg{}
@@ -195,6 +195,9 @@ func runM(t *testing.T, ch *vs.Choices, prop, tier string, render bool) *vs.RunO
 	for _, d := range []string{"d1", "d2", "d3"} {
 		_ = os.MkdirAll(filepath.Join(dir, d), 0o755)
 	}
+	// one of the sh: commands reads a variable whose name it takes from this file (an indirect use that the
+	// command text does not show)
+	_ = os.WriteFile(filepath.Join(dir, "varname.txt"), []byte("L\n"), 0o644)
 	if err := os.WriteFile(filepath.Join(dir, "Taskfile.yml"), []byte(yaml), 0o644); err != nil {
 		out.HarnessError = err.Error()
 		return out
